@@ -472,6 +472,24 @@ def run(ck):
         for kind, m, swapped in ms[:3]:
             pairs_mut.append((kind, e, m, swapped))
             exprs.append(m)
+    # operand orders of everything that is NOT an AC chain: comparison chains with one repeated operator (a != b != c is
+    # a != b and b != c: not symmetric in its operands), call arguments, boolean operands, conditional arms.  They enter
+    # the stream so that the equal-signature-implies-equal-value oracle sees every order of the same operands.
+    leaves = [("var", "a"), ("var", "b"), ("var", "c")]
+    for op in CMP:
+        for perm in itertools.permutations(leaves):
+            exprs.append(("bin", "Add", ("const", 10), ("cmp", perm[0], [(op, perm[1]), (op, perm[2])])))
+        for perm in itertools.permutations(leaves, 2):
+            exprs.append(("cmp", perm[0], [(op, perm[1])]))
+    for f in FUNCS:
+        if f != "abs":
+            for perm in itertools.permutations(leaves, 2):
+                exprs.append(("call", f, [perm[0], ("bin", "Sub", perm[1], ("const", 1))]))
+    for bo in BOOL:
+        for perm in itertools.permutations(leaves, 2):
+            exprs.append(("bool", bo, [perm[0], ("bin", "Sub", perm[1], ("const", 1))]))
+    for perm in itertools.permutations(leaves):
+        exprs.append(("if", perm[0], perm[1], perm[2]))
     # dedupe by source
     seen, uniq = set(), []
     for e in exprs:
@@ -554,7 +572,57 @@ def run(ck):
                 continue  # operands are themselves signature-equal: not a change
         ck.fail_input("C12:mutation-keeps-signature:" + kind, "a %s mutation left the signature unchanged" % kind,
                       {"expr": src(e), "mutated": src(m)})
+    # ---------- the signature a sweep REPORTS is the signature of what it EVALUATES (also after the caller's mapping changed)
+    n_rep = reported_signature_oracle(ck, rng, rands, 40 if thorough else 12)
+    ck.notes["reported_signature_runs"] = n_rep
     ck.cov["trusted_base"] = TRUSTED
+
+
+def reported_signature_oracle(ck, rng, rands, n):
+    from semantiva.data_processors.parametric_sweep_factory import ParametricSweepFactory, SequenceSpec
+    from semantiva.examples.test_utils import FloatDataCollection, FloatDataType, FloatMultiplyOperation
+    from semantiva.metadata import normalize_expression_sig_v1
+    seqs = {"a": [1.0, 2.0], "b": [3.0], "c": [-1.0, 2.0]}
+
+    def make(mapping):
+        return ParametricSweepFactory.create(element=FloatMultiplyOperation, element_kind="DataOperation", collection_output=FloatDataCollection,
+                                             vars={k: SequenceSpec(list(v)) for k, v in seqs.items()}, parametric_expressions=mapping,
+                                             mode="combinatorial", broadcast=False)
+
+    def sig_of(cls):
+        return cls.get_metadata()["preprocessor"]["param_expressions"]["factor"]["sig"]
+
+    def values(cls):
+        try:
+            return [repr(x.data) for x in cls().process(FloatDataType(1.0))]
+        except Exception as ex:  # noqa
+            return ["raises:" + type(ex).__name__]
+    pool = [e for e in rands if size(e) <= 9]
+    done = 0
+    for _ in range(n * 4):
+        if done >= n or len(pool) < 2:
+            break
+        e1, e2 = rng.sample(pool, 2)
+        mapping = {"factor": src(e1)}
+        try:
+            A = make(mapping)
+            s0 = sig_of(A)
+            v0 = values(A)
+            mapping["factor"] = src(e2)          # the caller re-uses and edits its mapping
+            B = make(mapping)
+        except Exception:  # noqa - outside the safe grammar
+            continue
+        done += 1
+        rep = {"kind": "reported-signature", "expr1": src(e1), "expr2": src(e2)}
+        if sig_of(A) != s0 or s0 != normalize_expression_sig_v1(src(e1)):
+            ck.fail_input("C12:reported-signature-is-not-that-of-the-evaluated-expression",
+                          "a sweep built from %r reports the signature of another expression after the caller's mapping was edited to %r "
+                          "(its values are still those of the first)" % (src(e1), src(e2)), rep)
+        elif sig_of(A) == sig_of(B) and values(A) != values(B) and "raises" not in "".join(values(A) + values(B)):
+            ck.fail_input("C12:unsound-signature:sweep-classes", "two sweeps report equal signatures and compute different values", rep)
+        elif values(A) != v0:
+            ck.fail_input("C12:sweep-values-change-with-callers-mapping", "the values of sweep A changed after the caller edited its mapping", rep)
+    return done
 
 
 def kindsig(e):
